@@ -29,6 +29,10 @@ pub struct Case {
     /// participants that register and finish without ever waiting (e.g. a session that ends by itself)
     pub early: usize,
     pub submits: usize,
+    /// the application gives up its first wait for completion (a timeout, a lost select! branch)
+    /// and waits again
+    #[serde(default)]
+    pub abandon_first_wait: bool,
 }
 
 struct Flag(AtomicBool);
@@ -167,6 +171,7 @@ fn scenario(case: Case) -> impl Fn(&mut Chooser) -> Result<u64, Violation> + Syn
             let m = shutdown.clone();
             let w = w.clone();
             let ti = tasks.len();
+            let abandon = case.abandon_first_wait;
             tasks.push((
                 "C".into(),
                 Box::pin(async move {
@@ -176,6 +181,21 @@ fn scenario(case: Case) -> impl Fn(&mut Chooser) -> Result<u64, Violation> + Syn
                         sched().await;
                     }
                     // as endpoint/src/main.rs does: the lock is held across the await
+                    if abandon {
+                        let mut s = lock!(m, w, ti);
+                        let gave_up = {
+                            let first = Box::pin(s.completion());
+                            matches!(futures::future::select(first, Box::pin(sched())).await, futures::future::Either::Right(_))
+                        };
+                        drop(s);
+                        w.log.borrow_mut().push(format!("C:first-wait-{}", if gave_up { "abandoned" } else { "returned" }));
+                        if !gave_up {
+                            w.completion_started.set(true);
+                            w.completion_returned_with_guards.set(Some(w.live_guards.get()));
+                            return;
+                        }
+                        sched().await;
+                    }
                     let mut s = lock!(m, w, ti);
                     w.completion_started.set(true);
                     w.log.borrow_mut().push("C:completion-start".into());
@@ -395,8 +415,8 @@ pub fn run(tier: Tier) -> i32 {
     crate::engine::watch::start("C19", tier.name(), Duration::from_secs(120), crate::engine::watch::OnExpiry::Machinery);
     let mut rep = Report::new("C19", tier, "model_checking");
     let cases: Vec<Case> = tier.pick(
-        vec![Case { waiters: 2, early: 0, submits: 1 }, Case { waiters: 1, early: 1, submits: 1 }, Case { waiters: 1, early: 0, submits: 2 }],
-        vec![Case { waiters: 2, early: 0, submits: 1 }, Case { waiters: 1, early: 1, submits: 1 }, Case { waiters: 2, early: 1, submits: 1 }, Case { waiters: 3, early: 0, submits: 1 }, Case { waiters: 2, early: 0, submits: 2 }, Case { waiters: 3, early: 1, submits: 1 }],
+        vec![Case { waiters: 2, early: 0, submits: 1, abandon_first_wait: false }, Case { waiters: 1, early: 1, submits: 1, abandon_first_wait: false }, Case { waiters: 1, early: 0, submits: 2, abandon_first_wait: false }, Case { waiters: 2, early: 0, submits: 1, abandon_first_wait: true }, Case { waiters: 1, early: 1, submits: 1, abandon_first_wait: true }],
+        vec![Case { waiters: 2, early: 0, submits: 1, abandon_first_wait: false }, Case { waiters: 1, early: 1, submits: 1, abandon_first_wait: false }, Case { waiters: 2, early: 1, submits: 1, abandon_first_wait: false }, Case { waiters: 3, early: 0, submits: 1, abandon_first_wait: false }, Case { waiters: 2, early: 0, submits: 2, abandon_first_wait: false }, Case { waiters: 3, early: 1, submits: 1, abandon_first_wait: false } , Case { waiters: 2, early: 0, submits: 1, abandon_first_wait: true }, Case { waiters: 2, early: 1, submits: 1, abandon_first_wait: true }, Case { waiters: 1, early: 0, submits: 2, abandon_first_wait: true }],
     );
     let mut total = 0u64;
     let mut cps = 0u64;
